@@ -24,7 +24,9 @@ PROPS = {
                  rule="implementation-driven random histories of one PromiseContainer and up to 6 Promises (NewPromise / NewPromiseWithResult, "
                       "SetResult calls parked between the winning Swap and the field writes, the three Await variants on promises and on the "
                       "container incl. pre-cancelled contexts and pre-fired channels, context cancellations, error/cancel channel sends and closes, "
-                      "container SetPromise incl. nil and the same promise, container SetResult, GetPromise; one HoldLock section at a time; in a "
+                      "container SetPromise incl. nil and the same promise, container SetResult, GetPromise; one HoldLock section at a time; the n-th awaiter "
+                      "of a history brings a context of flavour n mod 4: 0, 2 plain WithCancel, 1 ending like a deadline (Err() = DeadlineExceeded), 3 cancelled "
+                      "with a cause; error codes tell context.Canceled / DeadlineExceeded / the cause / the harness's other errors / anything else apart; in a "
                       "third of the histories container awaiters also park at the exit gate so that several select cases are ready) + every tenth history a "
                       "free-running stress history (100 rounds of 2-5 SetResult calls racing with 1-5 awaiters on a fresh promise, real parallelism, no gates: "
                       "exactly one true, every awaiter got that call's result, no panic) + corpus (D11, D20); "
@@ -40,6 +42,11 @@ PROPS = {
             "liveness stated as quiescence safety; 'without consuming CPU' is PARTIAL by nature: proved as a bound of 3 solo segments on the model (c11_no_spin), "
             "enforced on the implementation by the harness's gate-pass budget and watchdog; CPU time itself is not modelled",
             "'returns the result of the promise that is current' is read at the awaiter's last HoldLock section",
+            "error identity under an ended context (clauses 2 / 3): an await that returns on account of its context returns (zero value, context.Canceled) "
+            "-- the identical error value -- also when the context's own Err() is DeadlineExceeded or it carries a cancellation cause; the property text "
+            "does not name the error, the code and its doc comments do ('Returns nil, context.Canceled if ctx is canceled'), the model predicts it and "
+            "the clauses accept nothing else under a cancelled context; the flavour is derived from the number of awaiters created before (replayable) "
+            "and is not an argument of the model",
             "one PromiseContainer per history holding plain Promises (a container nested in a container is not modelled)",
             "interleavings of the memory accesses INSIDE one segment (Swap vs. Load+Store, fields written after close(done)) cannot be forced by the "
             "controller; they are covered by the model theorems and searched for by the free-running stress histories (chance-dependent)",
